@@ -1,7 +1,305 @@
-//! C11 operations (op names start with `c11.`)
-#[allow(unused_imports)]
+//! C11 operations (op names start with `c11.`): probes that no other property's op set contains.
+//!
+//! * out-of-domain arguments of option/result-returning APIs (`inv_mod` with modulus 0 / mixed
+//!   precision, `inv_mod2k(_vartime)` with `k > BITS`, `BoxedUint::from_be_hex` with a wrong length,
+//!   `try_random_bits(_with_precision)` with extreme lengths, shifts by up to `u32::MAX`);
+//! * zero-limb `BoxedUint` values (constructible through `From<&[Limb]>`, parsing the numeral `0`,
+//!   `from_be_hex("", 0)`) pushed through the public methods;
+//! * `BoxedUint` constructors with precision 0;
+//! * `Int` extreme forms (`MIN`, `-1`).
+//!
+//! C11 compares only the panic class of a line, so results are printed as small summaries
+//! (`ok`, `some`, `none`, `err:<Kind>`, a limb count) that are identical in both build profiles.
+#![allow(deprecated)]
 use crate::util::*;
+use crypto_bigint::{
+    BoxedUint, CheckedAdd, CheckedMul, CheckedSub, Gcd, Int, Integer, Limb, NonZero, Odd,
+    RandomBits, RandomBitsError, Uint, Zero,
+};
+use rand_chacha::ChaCha8Rng;
+use rand_core::SeedableRng;
+use subtle::ConstantTimeEq;
 
-pub fn dispatch(_op: &str, _a: &[&str]) -> Option<String> {
-    None
+fn opt<T>(o: Option<T>) -> String {
+    match o {
+        Some(_) => "some".into(),
+        None => "none".into(),
+    }
+}
+
+fn u_ops<const N: usize>(op: &str, a: &[&str]) -> Option<String> {
+    Some(match (op, a) {
+        ("c11.u.inv_mod", [x, m]) => {
+            let x = arg!(uint::<N>(x));
+            let m = arg!(uint::<N>(m));
+            u_inv_mod(&x, &m)
+        }
+        ("c11.u.inv_mod2k", [x, k]) => {
+            let x = arg!(uint::<N>(x));
+            let k = arg!(dec32(k));
+            opt(Option::<Uint<N>>::from(x.inv_mod2k(k)))
+        }
+        ("c11.u.inv_mod2k_vartime", [x, k]) => {
+            let x = arg!(uint::<N>(x));
+            let k = arg!(dec32(k));
+            opt(Option::<Uint<N>>::from(x.inv_mod2k_vartime(k)))
+        }
+        // every non-panicking shift form, with any u32 shift
+        ("c11.u.shift_all", [x, s]) => {
+            let x = arg!(uint::<N>(x));
+            let s = arg!(dec32(s));
+            let mut n = 0u32;
+            n += bool::from(x.overflowing_shl(s).is_some()) as u32;
+            n += bool::from(x.overflowing_shr(s).is_some()) as u32;
+            n += bool::from(x.overflowing_shl_vartime(s).is_some()) as u32;
+            n += bool::from(x.overflowing_shr_vartime(s).is_some()) as u32;
+            n += bool::from(x.wrapping_shl(s).is_zero()) as u32;
+            n += bool::from(x.wrapping_shr(s).is_zero()) as u32;
+            n += bool::from(x.wrapping_shl_vartime(s).is_zero()) as u32;
+            n += bool::from(x.wrapping_shr_vartime(s).is_zero()) as u32;
+            n += x.bit_vartime(s) as u32;
+            n += bool::from(x.bit(s)) as u32;
+            let i = x.as_int();
+            n += bool::from(i.overflowing_shr(s).is_some()) as u32;
+            n += bool::from(i.overflowing_shr_vartime(s).is_some()) as u32;
+            n += bool::from(i.wrapping_shr(s).is_zero()) as u32;
+            n += bool::from(i.wrapping_shr_vartime(s).is_zero()) as u32;
+            n += bool::from(i.overflowing_shl(s).is_some()) as u32;
+            n += bool::from(i.wrapping_shl(s).is_zero()) as u32;
+            format!("ok:{n}")
+        }
+        // Int::MIN and -1 through every option-returning / wrapping form
+        ("c11.i.extreme", [x, y]) => {
+            let x = arg!(int::<N>(x));
+            let y = arg!(int::<N>(y));
+            let mut n = 0u32;
+            n += bool::from(x.checked_neg().is_some()) as u32;
+            n += bool::from(x.wrapping_neg().is_min()) as u32;
+            n += bool::from(x.overflowing_neg().1) as u32;
+            n += bool::from(x.abs().is_zero()) as u32;
+            n += bool::from(CheckedAdd::checked_add(&x, &y).is_some()) as u32;
+            n += bool::from(CheckedSub::checked_sub(&x, &y).is_some()) as u32;
+            n += bool::from(CheckedMul::checked_mul(&x, &y).is_some()) as u32;
+            n += bool::from(x.checked_div(&y).is_some()) as u32;
+            n += bool::from(x.checked_div_floor(&y).is_some()) as u32;
+            n += bool::from(x.checked_square().is_some()) as u32;
+            n += bool::from(x.wrapping_add(&y).is_min()) as u32;
+            n += bool::from(crypto_bigint::WrappingSub::wrapping_sub(&x, &y).is_min()) as u32;
+            if let Some(nz) = Option::<NonZero<Int<N>>>::from(y.to_nz()) {
+                let (q, r) = x.checked_div_rem(&nz);
+                n += bool::from(q.is_some()) as u32 + bool::from(r.is_min()) as u32;
+                let (q, r) = x.checked_div_rem_vartime(&nz);
+                n += bool::from(q.is_some()) as u32 + bool::from(r.is_min()) as u32;
+                let (q, r) = x.checked_div_rem_floor(&nz);
+                n += bool::from(q.is_some()) as u32 + bool::from(r.is_min()) as u32;
+                n += bool::from(x.rem(&nz).is_min()) as u32;
+            }
+            format!("ok:{n}")
+        }
+        // checked twins with values: div_rem_limb (shl_limb + div2by1 per limb), mul_mod_special (LIMBS >= 2)
+        ("c11.u.div_rem_limb", [x, d]) => {
+            let x = arg!(uint::<N>(x));
+            let d = arg!(limb(d));
+            let d = arg!(Option::<NonZero<Limb>>::from(NonZero::new(d)));
+            let (q, r) = x.div_rem_limb(d);
+            format!("{} {}", uhex(&q), lhex(r))
+        }
+        ("c11.u.mul_mod_special", [x, y, c]) => {
+            let x = arg!(uint::<N>(x));
+            let y = arg!(uint::<N>(y));
+            let c = arg!(limb(c));
+            uhex(&x.mul_mod_special(&y, c))
+        }
+        _ => return None,
+    })
+}
+
+// `Uint::inv_mod` exists only for the widths that have a safegcd inverter
+fn u_inv_mod<const N: usize>(x: &Uint<N>, m: &Uint<N>) -> String {
+    macro_rules! at {
+        ($n:expr) => {{
+            let x: Uint<$n> = x.resize();
+            let m: Uint<$n> = m.resize();
+            opt(Option::<Uint<$n>>::from(x.inv_mod(&m)))
+        }};
+    }
+    match N {
+        1 => at!(1),
+        2 => at!(2),
+        3 => at!(3),
+        4 => at!(4),
+        6 => at!(6),
+        8 => at!(8),
+        _ => "unsupported-width".into(),
+    }
+}
+
+/// a zero-limb `BoxedUint`, through the public constructors that produce one
+fn zero_limb(ctor: &str) -> Option<BoxedUint> {
+    Some(match ctor {
+        "slice" => BoxedUint::from(&[][..] as &[Limb]),
+        "parse0" => BoxedUint::from_str_radix_vartime("0", 10).ok()?,
+        "parse000" => BoxedUint::from_str_radix_vartime("+0_00", 16).ok()?,
+        "hex0" => Option::<BoxedUint>::from(BoxedUint::from_be_hex("", 0))?,
+        _ => return None,
+    })
+}
+
+fn b0(ctor: &str, method: &str) -> Option<String> {
+    let z = arg!(zero_limb(ctor));
+    if z.nlimbs() != 0 {
+        // the constructor no longer yields a zero-limb value (e.g. after a repair): the methods run
+        // on a regular zero and the line prints what it got
+        return Some(format!("nlimbs:{}", z.nlimbs()));
+    }
+    let one = BoxedUint::one();
+    let r: u64 = match method {
+        "nlimbs" => z.nlimbs() as u64,
+        "bits_precision" => z.bits_precision() as u64,
+        "bits" => z.bits() as u64,
+        "bits_vartime" => z.bits_vartime() as u64,
+        "leading_zeros" => z.leading_zeros() as u64,
+        "trailing_zeros" => z.trailing_zeros() as u64,
+        "trailing_zeros_vartime" => z.trailing_zeros_vartime() as u64,
+        "trailing_ones" => z.trailing_ones() as u64,
+        "trailing_ones_vartime" => z.trailing_ones_vartime() as u64,
+        "bit" => bool::from(z.bit(0)) as u64,
+        "bit_vartime" => z.bit_vartime(0) as u64,
+        "is_zero" => bool::from(z.is_zero()) as u64,
+        "is_odd" => bool::from(z.is_odd()) as u64,
+        "is_one" => bool::from(z.is_one()) as u64,
+        "to_odd" => bool::from(z.to_odd().is_some()) as u64,
+        "nz_new" => bool::from(NonZero::new(z.clone()).is_some()) as u64,
+        "eq_zero" => (z == BoxedUint::zero()) as u64,
+        "ct_eq_self" => bool::from(z.ct_eq(&z)) as u64,
+        "cmp_one" => (z < one) as u64,
+        "to_string_radix_10" => z.to_string_radix_vartime(10).len() as u64,
+        "to_string_radix_16" => z.to_string_radix_vartime(16).len() as u64,
+        "display" => format!("{z}").len() as u64,
+        "lower_hex" => format!("{z:x}").len() as u64,
+        "to_be_bytes" => z.to_be_bytes().len() as u64,
+        "to_le_bytes" => z.to_le_bytes().len() as u64,
+        "to_words" => z.to_words().len() as u64,
+        "clone" => z.clone().nlimbs() as u64,
+        "widen" => z.widen(64).nlimbs() as u64,
+        "shorten" => z.shorten(0).nlimbs() as u64,
+        "sqrt" => z.sqrt().nlimbs() as u64,
+        "sqrt_vartime" => z.sqrt_vartime().nlimbs() as u64,
+        "checked_sqrt" => bool::from(z.checked_sqrt().is_some()) as u64,
+        "overflowing_shl" => bool::from(z.overflowing_shl(0).1) as u64,
+        "overflowing_shr" => bool::from(z.overflowing_shr(0).1) as u64,
+        "wrapping_shl" => z.wrapping_shl(1).nlimbs() as u64,
+        "wrapping_shr" => z.wrapping_shr(1).nlimbs() as u64,
+        "shl_vartime" => z.shl_vartime(0).is_some() as u64,
+        "shr_vartime" => z.shr_vartime(0).is_some() as u64,
+        "wrapping_shl_vartime" => z.wrapping_shl_vartime(1).nlimbs() as u64,
+        "wrapping_shr_vartime" => z.wrapping_shr_vartime(1).nlimbs() as u64,
+        "adc" => z.adc(&z, Limb::ZERO).1.0,
+        "sbb" => z.sbb(&z, Limb::ZERO).1.0,
+        "wrapping_add" => z.wrapping_add(&z).nlimbs() as u64,
+        "wrapping_sub" => z.wrapping_sub(&z).nlimbs() as u64,
+        "wrapping_neg" => z.wrapping_neg().nlimbs() as u64,
+        "checked_add" => bool::from(z.checked_add(&z).is_some()) as u64,
+        "checked_sub" => bool::from(z.checked_sub(&z).is_some()) as u64,
+        "add_one" => z.checked_add(&one).is_some().unwrap_u8() as u64,
+        "one_add" => one.checked_add(&z).is_some().unwrap_u8() as u64,
+        "mul" => z.mul(&z).nlimbs() as u64,
+        "mul_one" => z.mul(&one).nlimbs() as u64,
+        "wrapping_mul" => z.wrapping_mul(&z).nlimbs() as u64,
+        "checked_mul" => bool::from(z.checked_mul(&z).is_some()) as u64,
+        "square" => z.square().nlimbs() as u64,
+        "bitand" => z.bitand(&z).nlimbs() as u64,
+        "bitor" => z.bitor(&z).nlimbs() as u64,
+        "bitxor" => z.bitxor(&z).nlimbs() as u64,
+        "not" => (!z.clone()).nlimbs() as u64,
+        "checked_div_self" => bool::from(z.checked_div(&z).is_some()) as u64,
+        "one_checked_div" => bool::from(one.checked_div(&z).is_some()) as u64,
+        "gcd_self" => z.gcd(&z).nlimbs() as u64,
+        "gcd_one" => one.gcd(&z).nlimbs() as u64,
+        "inv_mod2k" => bool::from(z.inv_mod2k(0).1) as u64,
+        "inv_mod2k_vartime" => bool::from(z.inv_mod2k_vartime(0).1) as u64,
+        "add_mod" => z.add_mod(&z, &z).nlimbs() as u64,
+        "sub_mod" => z.sub_mod(&z, &z).nlimbs() as u64,
+        "neg_mod" => z.neg_mod(&z).nlimbs() as u64,
+        "random_mod_rejects" => 0,
+        _ => return None,
+    };
+    Some(format!("ok:{r}"))
+}
+
+fn rbe<E>(e: RandomBitsError<E>) -> String {
+    match e {
+        RandomBitsError::RandCore(_) => "err:RandCore".into(),
+        RandomBitsError::BitsPrecisionMismatch { .. } => "err:BitsPrecisionMismatch".into(),
+        RandomBitsError::BitLengthTooLarge { .. } => "err:BitLengthTooLarge".into(),
+    }
+}
+
+pub fn dispatch(op: &str, a: &[&str]) -> Option<String> {
+    if op.starts_with("c11.u.") || op.starts_with("c11.i.") {
+        let (n, rest) = a.split_first()?;
+        let n = arg!(dec(n));
+        return with_n!(n, u_ops, op, rest);
+    }
+    Some(match (op, a) {
+        ("c11.b0", [ctor, method]) => return b0(ctor, method),
+        // BoxedUint::inv_mod (CtOption): zero modulus, mixed precision
+        ("c11.b.inv_mod", [na, x, nm, m]) => {
+            let x = arg!(boxed(x, arg!(dec(na))));
+            let m = arg!(boxed(m, arg!(dec(nm))));
+            opt(Option::<BoxedUint>::from(x.inv_mod(&m)))
+        }
+        ("c11.b.inv_mod2k", [na, x, k]) => {
+            let x = arg!(boxed(x, arg!(dec(na))));
+            bit(bool::from(x.inv_mod2k(arg!(dec32(k))).1))
+        }
+        ("c11.b.inv_mod2k_vartime", [na, x, k]) => {
+            let x = arg!(boxed(x, arg!(dec(na))));
+            bit(bool::from(x.inv_mod2k_vartime(arg!(dec32(k))).1))
+        }
+        // BoxedUint::from_be_hex (CtOption) with any text and precision
+        ("c11.b.from_be_hex", [s, prec]) => {
+            let s = arg!(bytes(s));
+            let s = arg!(String::from_utf8(s).ok());
+            opt(Option::<BoxedUint>::from(BoxedUint::from_be_hex(&s, arg!(dec32(prec)))))
+        }
+        // constructors with precision 0 -> limb count of the result
+        ("c11.b.ctor0", [name]) => {
+            let v = match *name {
+                "zero_with_precision" => BoxedUint::zero_with_precision(0),
+                "one_with_precision" => BoxedUint::one_with_precision(0),
+                "max" => BoxedUint::max(0),
+                "from_be_slice" => arg!(BoxedUint::from_be_slice(&[], 0).ok()),
+                "from_le_slice" => arg!(BoxedUint::from_le_slice(&[], 0).ok()),
+                "from_words" => BoxedUint::from_words(Vec::<u64>::new()),
+                "from_vec" => BoxedUint::from(Vec::<Limb>::new()),
+                "from_box" => BoxedUint::from(Vec::<Limb>::new().into_boxed_slice()),
+                "radix_prec0" => match BoxedUint::from_str_radix_with_precision_vartime("0", 10, 0) {
+                    Ok(v) => v,
+                    Err(_) => return Some("err".into()),
+                },
+                "widen0" => BoxedUint::one().widen(0),
+                "shorten0" => BoxedUint::zero().shorten(0),
+                _ => return None,
+            };
+            format!("nlimbs:{}", v.nlimbs())
+        }
+        ("c11.b.try_random_bits", [bitlen, prec]) => {
+            let mut rng = ChaCha8Rng::seed_from_u64(11);
+            let bl = arg!(dec32(bitlen));
+            let pr = arg!(dec32(prec));
+            if pr as u64 > 1 << 20 && bl <= pr {
+                return Some(BAD.into()); // would allocate: generator bug
+            }
+            match BoxedUint::try_random_bits_with_precision(&mut rng, bl, pr) {
+                Ok(v) => format!("nlimbs:{}", v.nlimbs()),
+                Err(e) => rbe(e),
+            }
+        }
+        ("c11.b.odd_new0", [ctor]) => {
+            let z = arg!(zero_limb(ctor));
+            bit(bool::from(Odd::new(z).is_some()))
+        }
+        _ => return None,
+    })
 }
